@@ -6,10 +6,10 @@ EXPLANATION = ("Static rules over quinn-proto MIR: (a) IncomingToken{validated: 
                "Token::decode and by the address / lifetime tests (and, for NEW_TOKEN tokens, by the token log accepting the nonce); the log is consulted with the "
                "token's own nonce and *issue* time; Token::decode yields a token only past AeadKey::open's Ok edge, a known type byte and an exhausted reader; "
                "(b) outcome classes: Retry-token failures -> InvalidRetryTokenError -> INVALID_TOKEN close; validation-token failures -> unvalidated; (c) token "
-               "timestamps come only from the configured TimeSource; (d) client Retry acceptance guards (shared with C04.d) and the CID-echo check in "
+               "timestamps come only from the configured TimeSource; (d) client Retry acceptance: every state change of the Retry arm lies behind a guard on total_authed_packets itself (this Retry is the first authenticated packet) and behind the pass edge of is_valid_retry checked against the first Initial's DCID; the CID-echo check in "
                "handle_peer_params comparing all three CIDs unconditionally before set_peer_params; the server fills original_dst_cid / retry_src_cid from the token; "
                "(e) client token stores hand out by removing (pop_front); (f) the token log always ends in the filter's check_and_insert; NEW_TOKEN frames carry a "
-               "fresh Token::new per transmission. Cryptographic unforgeability and bloom period arithmetic are NOT decided.")
+               "fresh Token::new per transmission; the log's period index is the full-resolution quotient as_nanos(issued + lifetime - period_1_start) / as_nanos(lifetime) and period_1_start only moves by that same lifetime. Cryptographic unforgeability and the rest of the bloom period arithmetic (arm selection, filter turn-over) are NOT decided.")
 RULE = "rule instances = (rule, site) pairs over MIR constructions / branches / call arguments; non-trivial = bound to a real site"
 
 
@@ -131,8 +131,13 @@ def rule_a(ctx):
             ok = False
             for br in branches(F, fh):
                 inner, neg = peel_not(br.desc)
-                if inner[0] == 'call' and inner[1] == 'Result::is_err' and contains_site(inner, lc):
-                    t_err = br.target(0 if neg else 1)
+                t_err = None
+                # the verdict itself is branched on: `.is_err()`, `.is_ok()`, or a match / let-else on the Result (Ok = 0, Err = 1)
+                if inner[0] == 'call' and inner[1] in ('Result::is_err', 'Result::is_ok') and len(inner[3]) == 1 and is_site(inner[3][0], lc):
+                    t_err = br.target((0 if neg else 1) if inner[1] == 'Result::is_err' else (1 if neg else 0))
+                elif br.desc[0] == 'discr' and is_site(br.desc[1], lc):
+                    t_err = br.target(1)
+                if t_err is not None:
                     ok = fh.dominates(br.bb, s) and s not in fh.reachable_from(t_err, avoid=[br.bb])
             ctx.check(ok, 'a', 'validation_token_single_use', fh, lc.where(), 'check_and_insert Err edge reaches no acceptance', 'a NEW_TOKEN token is accepted although the token log reported reuse (or its result is ignored)')
             n = arg_desc(F, lc, 1)
